@@ -2,7 +2,7 @@
 from . import ipgen
 
 from .ipcommon import MODEL_DEPS, TRUSTED_BASE, ASSUMPTIONS, RULE_C01 as RULE  # noqa
-COQ_DEPS = ["lib/PPCore.v", "lib/PPHost.v", "lib/Memo.v", "lib/MemoProofs.v"]
+COQ_DEPS = ["lib/PPCore.v", "lib/PPHost.v", "lib/Memo.v", "lib/MemoProofs.v", "lib/PyLib.v", "gen/G_fn_ip.v", "refine/RefIpCommon.v", "refine/RefAnon.v"]
 
 
 def oracle(ctx, case, out, label):
@@ -61,6 +61,9 @@ def run(ctx):
             cases.append(ipgen.ip4_case(rng, pfx=pfx, B=B))
     cases += [ipgen.ip6_case(rng) for _ in range(10 if q else 300)]
     m, i = ctx.correspond(cases, project=project, label="anonymize")
+    # the code GENERATED from the source by the function-level translator, on the small-width cases
+    gen_cases = [["gbase"] + c[1:] for c in cases if c[0] == "base"]
+    ctx.correspond(gen_cases, project=lambda c, o: project(["base"] + c[1:], o), label="generated-code")
     pairs = 0
     for c, io in zip(cases, i):
         pairs += oracle(ctx, c, io, "impl")
